@@ -49,6 +49,14 @@ impl Builder {
     where
         R: 'static + io::BufRead,
     {
+        // Detection peeks at the start of the stream via `fill_buf`, which only shows whatever the
+        // first read happened to return (possibly a single byte when reading from a pipe).
+        // Read ahead enough for a whole BGZF block, so detection does not depend on chunking.
+        const DETECT_LEN: u64 = 1 << 16;
+        let mut head = Vec::new();
+        reader.by_ref().take(DETECT_LEN).read_to_end(&mut head)?;
+        let mut reader = io::Cursor::new(head).chain(reader);
+
         let compression_method = match self.compression_method {
             Some(compression_method) => compression_method,
             None => CompressionMethod::detect(&mut reader)?,
